@@ -255,6 +255,10 @@ type ConsFamilies struct {
 	All      []GenCfg
 	Rounds   []RoundCfg
 	Sleepers []SleeperCfg
+	NoCorpus bool
+	// Then is explored after this stage (the thorough tier is: the whole quick tier first, then the targeted
+	// thorough families, then the big ones, so that a wall-clock cap only ever cuts the tail)
+	Then *ConsFamilies
 }
 
 // OnlyForks drops every family without fork events (used by the cheater-list check).
@@ -275,6 +279,11 @@ func (f ConsFamilies) OnlyForks() ConsFamilies {
 			g.Sleepers = append(g.Sleepers, sl)
 		}
 	}
+	g.NoCorpus = f.NoCorpus
+	if f.Then != nil {
+		t := f.Then.OnlyForks()
+		g.Then = &t
+	}
 	return g
 }
 
@@ -289,10 +298,34 @@ func (f ConsFamilies) Light() ConsFamilies {
 		g.Rounds = append(g.Rounds, r)
 	}
 	g.Sleepers = f.Sleepers
+	g.NoCorpus = f.NoCorpus
+	g.Then = f.Then // later stages (thorough tier only) stay complete
 	return g
 }
 
 func DefaultConsFamilies(quick bool, byzantine bool) ConsFamilies {
+	q := defaultConsFamilies(true, byzantine)
+	if quick {
+		return q
+	}
+	big := defaultConsFamilies(false, byzantine)
+	// stage 2: the targeted thorough families (sleepers, lag/fork round families built for specific election
+	// situations); stage 3: the big enumerations
+	targeted := ConsFamilies{Sleepers: big.Sleepers, NoCorpus: true}
+	rest := ConsFamilies{All: big.All, NoCorpus: true}
+	for _, r := range big.Rounds {
+		if r.RequireLag || r.ForkRounds > 0 {
+			targeted.Rounds = append(targeted.Rounds, r)
+		} else {
+			rest.Rounds = append(rest.Rounds, r)
+		}
+	}
+	targeted.Then = &rest
+	q.Then = &targeted
+	return q
+}
+
+func defaultConsFamilies(quick bool, byzantine bool) ConsFamilies {
 	var f ConsFamilies
 	all := func(w WeightVec, n, forks int, prev bool) {
 		f.All = append(f.All, GenCfg{Weights: w.W, IDs: w.IDs, Epoch: 1, N: n, ForkBudget: forks, PrevParents: prev, MaxLevelSet: 200000})
@@ -378,6 +411,25 @@ func ExploreConsensus(c *core.Ctx, fam ConsFamilies, rep Report) {
 	cfgs := nodeConfigs()
 	item := 0
 	capHit := false
+	stage := 0
+	for st := &fam; st != nil; st = st.Then {
+		stage++
+		if exploreStage(c, *st, rep, cfgs, &item) {
+			capHit = true
+		}
+		c.Set(fmt.Sprintf("stage%d_complete", stage), !c.OutOfBudget())
+	}
+	c.Set("exhaustive", !capHit && !c.Capped())
+	// vacuity guards: election situations the reference went through while comparing
+	c.Count("ref_election_ties", int64(lref.Stat.Ties))
+	c.Count("ref_election_split_votes", int64(lref.Stat.SplitVotes))
+	c.Count("ref_election_no_decisions", int64(lref.Stat.NoDecisions))
+	c.Count("ref_atropos_not_first_validator", int64(lref.Stat.AtroposNotFirst))
+}
+
+func exploreStage(c *core.Ctx, fam ConsFamilies, rep Report, cfgs []Config, pitem *int) (capHit bool) {
+	item := *pitem
+	defer func() { *pitem = item }()
 	for _, g := range fam.All {
 		_, capped := GenAll(g, 3, func(d *lref.DAG) {
 			item++
@@ -403,7 +455,7 @@ func ExploreConsensus(c *core.Ctx, fam ConsFamilies, rep Report) {
 			}
 		})
 	}
-	if len(fam.Sleepers) > 0 || len(fam.Rounds) > 0 {
+	if !fam.NoCorpus && (len(fam.Sleepers) > 0 || len(fam.Rounds) > 0) {
 		cd, cn := CorpusDAGs()
 		for i, d := range cd {
 			item++
@@ -425,10 +477,5 @@ func ExploreConsensus(c *core.Ctx, fam ConsFamilies, rep Report) {
 			}
 		})
 	}
-	c.Set("exhaustive", !capHit && !c.Capped())
-	// vacuity guards: election situations the reference went through while comparing
-	c.Count("ref_election_ties", int64(lref.Stat.Ties))
-	c.Count("ref_election_split_votes", int64(lref.Stat.SplitVotes))
-	c.Count("ref_election_no_decisions", int64(lref.Stat.NoDecisions))
-	c.Count("ref_atropos_not_first_validator", int64(lref.Stat.AtroposNotFirst))
+	return capHit
 }
